@@ -54,9 +54,13 @@ fn is_forced(m: &ControlMessage, is_restart: bool, flag: &Flag) -> bool {
 }
 
 /// One fresh `recv` call, polled once; the future is leaked (its drop glue is not the subject).
-/// `select!` start index of the scenarios that reach a `select!`: fixed (branch 0 first). With the
-/// solver-chosen index (usize::MAX) none of them finished symbolic execution in 330 s.
-pub const SELECT_START: usize = 0;
+/// `select!` start index of the scenarios that reach a `select!` once: solver-chosen (usize::MAX),
+/// i.e. every polling order tokio's random start index can produce. (Until the model's
+/// `UnboundedReceiver::recv` became a named future instead of an `async fn` - a coroutine nested in
+/// the `recv` coroutine - none of these scenarios finished symbolic execution in 330-400 s.)
+/// Scenarios that poll twice choose the start index of the decisive poll by path-splitting
+/// (`split!(3, ..)` + `set_select_start(k)`): constant on each path, all three orders explored.
+pub const SELECT_START: usize = usize::MAX;
 
 fn recv_once(rx: &mut PriorityReceiver, st: &mut Option<Timer>) -> Poll<Option<ControlMessage>> {
     let mut fut = ManuallyDrop::new(rx.recv(st));
@@ -431,31 +435,99 @@ pub fn recv_woken_by_normal_send() {
 }
 
 /// No timer, nothing queued: Pending; then a normal AND an urgent message arrive before the
-/// waiter runs again: the urgent one must be returned first.
+/// waiter runs again: the urgent one must be returned first - whatever branch the re-poll of the
+/// parked `select!` starts with (k = 0, 1, 2: all three explored).
 #[kani::proof]
 #[kani::unwind(8)]
 pub fn recv_urgent_first_after_wait() {
-    tv::set_select_start(SELECT_START);
-    let (tx, mut rx) = priority_new();
-    let mut st: Option<Timer> = None;
-    let (n, u);
-    {
-        let mut fut = ManuallyDrop::new(rx.recv(&mut st));
-        let r = tv::poll_with(W0, unsafe { Pin::new_unchecked(&mut *fut) });
-        assert!(r.is_pending(), "C10: recv returned with nothing queued");
-        std::mem::forget(r);
-        n = send(&tx, Priority::Normal);
-        u = send(&tx, Priority::Urgent);
-        match tv::poll_with(W0, unsafe { Pin::new_unchecked(&mut *fut) }) {
-            Poll::Ready(Some(m)) => {
-                assert!(is_msg(&m, &u), "C10: pending urgent control not returned before the pending normal one (both arrived while recv was waiting)");
-                std::mem::forget(m);
+    crate::split!(3, |k| {
+        tv::set_select_start(0);
+        let (tx, mut rx) = priority_new();
+        let mut st: Option<Timer> = None;
+        let (a, b);
+        {
+            let mut fut = ManuallyDrop::new(rx.recv(&mut st));
+            let r = tv::poll_with(W0, unsafe { Pin::new_unchecked(&mut *fut) });
+            assert!(r.is_pending(), "C10: recv returned with nothing queued");
+            std::mem::forget(r);
+            a = send(&tx, Priority::Normal);
+            b = send(&tx, Priority::Urgent);
+            tv::set_select_start(k);
+            match tv::poll_with(W0, unsafe { Pin::new_unchecked(&mut *fut) }) {
+                Poll::Ready(Some(m)) => {
+                    assert!(is_msg(&m, &b), "C10: pending urgent control not returned before the pending normal one (both arrived while recv was waiting)");
+                    std::mem::forget(m);
+                }
+                _ => panic!("C10: recv still pending after controls arrived"),
             }
-            _ => panic!("C10: recv still pending after controls arrived"),
         }
-    }
-    kani::cover!(true, "scenario ran to its end");
-    std::mem::forget((rx, tx, st, n, u));
+        kani::cover!(k == 2, "scenario ran to its end");
+        std::mem::forget((rx, tx, st, a, b));
+        kani::assume(false);
+    });
+}
+
+/// The same with a normal and a high control arriving while `recv` is parked: high first.
+#[kani::proof]
+#[kani::unwind(8)]
+pub fn recv_high_first_after_wait() {
+    crate::split!(3, |k| {
+        tv::set_select_start(0);
+        let (tx, mut rx) = priority_new();
+        let mut st: Option<Timer> = None;
+        let (a, b);
+        {
+            let mut fut = ManuallyDrop::new(rx.recv(&mut st));
+            let r = tv::poll_with(W0, unsafe { Pin::new_unchecked(&mut *fut) });
+            assert!(r.is_pending(), "C10: recv returned with nothing queued");
+            std::mem::forget(r);
+            a = send(&tx, Priority::Normal);
+            b = send(&tx, Priority::High);
+            tv::set_select_start(k);
+            match tv::poll_with(W0, unsafe { Pin::new_unchecked(&mut *fut) }) {
+                Poll::Ready(Some(m)) => {
+                    assert!(is_msg(&m, &b), "C10: pending high control not returned before the pending normal one (both arrived while recv was waiting)");
+                    std::mem::forget(m);
+                }
+                _ => panic!("C10: recv still pending after controls arrived"),
+            }
+        }
+        kani::cover!(k == 2, "scenario ran to its end");
+        std::mem::forget((rx, tx, st, a, b));
+        kani::assume(false);
+    });
+}
+
+/// Armed timer, `recv` parked; a high and an urgent control arrive before the re-poll: urgent first,
+/// the timer flag untouched.
+fn recv_armed_timer_urgent_first_after_wait_body(is_restart: bool) {
+    crate::split!(3, |k| {
+        tv::set_select_start(0);
+        let (tx, mut rx) = priority_new();
+        let flag = Flag::default();
+        let (mut st, _until) = armed_future_timer(&flag, is_restart);
+        let (a, b);
+        {
+            let mut fut = ManuallyDrop::new(rx.recv(&mut st));
+            let r = tv::poll_with(W0, unsafe { Pin::new_unchecked(&mut *fut) });
+            assert!(r.is_pending(), "C10: recv returned with nothing queued");
+            std::mem::forget(r);
+            a = send(&tx, Priority::High);
+            b = send(&tx, Priority::Urgent);
+            tv::set_select_start(k);
+            match tv::poll_with(W0, unsafe { Pin::new_unchecked(&mut *fut) }) {
+                Poll::Ready(Some(m)) => {
+                    assert!(is_msg(&m, &b), "C10: pending urgent control not returned before the pending high one while the timer is armed (both arrived while recv was waiting)");
+                    std::mem::forget(m);
+                }
+                _ => panic!("C10: recv still pending after controls arrived"),
+            }
+        }
+        assert!(!flag.raised(), "C06: timer flag raised by recv");
+        kani::cover!(k == 2, "scenario ran to its end");
+        std::mem::forget((rx, tx, st, a, b, flag));
+        kani::assume(false);
+    });
 }
 
 // ------------------------------------------------------------------ timer-kind split
@@ -479,3 +551,4 @@ both_timer_kinds!(recv_armed_timer_urgent_passes, recv_armed_timer_urgent_passes
 both_timer_kinds!(recv_armed_timer_high_passes, recv_armed_timer_high_passes_body);
 both_timer_kinds!(recv_timer_fires_while_pending, recv_timer_fires_while_pending_body);
 both_timer_kinds!(recv_timer_fires_then_new_recv, recv_timer_fires_then_new_recv_body);
+both_timer_kinds!(recv_armed_timer_urgent_first_after_wait, recv_armed_timer_urgent_first_after_wait_body);
